@@ -392,7 +392,13 @@ def checkLocations (i : JIn) (fs : List JFile) (ds : List Dir) : List Fail :=
 
 def httpConfPath : List Char := str "/etc/nginx/conf.d/http.conf"
 
+/-- E: no path is generated twice (two objects mapped to one file: the later write wins) -/
+def checkPathsOnce (fs : List JFile) : List Fail :=
+  let ps := fs.map (·.path)
+  (ps.eraseDups.filter fun p => ps.count p > 1).map fun p => ⟨"C16:generated-path-twice", show' p⟩
+
 def judge (i : JIn) (fs : List JFile) : List Fail :=
+  checkPathsOnce fs ++
   match fileAt fs httpConfPath with
   | none => [⟨"C16:http-conf-missing", ""⟩]
   | some f =>
